@@ -431,6 +431,10 @@ class HyASTCompiler:
             if is_unpack("mapping", expr):
                 ret += self.compile(expr[1])
                 if dict_display:
+                    if len(compiled_exprs) % 2:
+                        raise self._syntax_error(
+                            expr, "`unpack-mapping` can't be the value of a dictionary key"
+                        )
                     compiled_exprs.append(None)
                     compiled_exprs.append(ret.force_expr)
                 elif with_kwargs:
@@ -709,6 +713,11 @@ class HyASTCompiler:
     @builds_model(Dict)
     def compile_dict(self, m):
         keyvalues, ret, _ = self._compile_collect(m, dict_display=True)
+        for x in m:
+            if is_unpack("iterable", x):
+                raise self._syntax_error(x, "`unpack-iterable` is not allowed in a dictionary display")
+        if len(keyvalues) % 2:
+            raise self._syntax_error(m, "a dictionary display needs a value for each key")
         return ret + asty.Dict(m, keys=keyvalues[::2], values=keyvalues[1::2])
 
     @builds_model(Tuple)
